@@ -21,6 +21,8 @@ type bitLemma struct {
 	// mention bitD(w,j) (definition of a bit) and popD(w) (definition of popcount).
 	Proof func(k int) string
 	PerK  bool
+	// Assumed: not proved but taken as the definition of the function it talks about (stdlib math/bits, or the spec function wcnt)
+	Assumed string
 }
 
 const one = "#x0000000000000001"
@@ -39,6 +41,20 @@ func popD(w string) string {
 	var b strings.Builder
 	b.WriteString("(+")
 	for i := 0; i < 64; i++ {
+		fmt.Fprintf(&b, " (ite %s 1 0)", bitD(w, i))
+	}
+	b.WriteString(")")
+	return b.String()
+}
+
+// wcntD: number of one bits of w below position k (definition, concrete k).
+func wcntD(w string, k int) string {
+	if k <= 0 {
+		return "0"
+	}
+	var b strings.Builder
+	b.WriteString("(+ 0")
+	for i := 0; i < k && i < 64; i++ {
 		fmt.Fprintf(&b, " (ite %s 1 0)", bitD(w, i))
 	}
 	b.WriteString(")")
@@ -162,6 +178,82 @@ var bitLemmas = []bitLemma{
 		Proof: func(k int) string {
 			return "(= " + popD("(bvxor w "+kc(k)+")") + " (+ " + popD("w") + " (ite " + bitD("w", k) + " (- 1) 1)))"
 		}},
+	{Name: "bit-of-shl", PerK: true,
+		Axiom: "(forall ((w (_ BitVec 64)) (k Int) (j Int)) (! (=> (and " + kRange + " " + jRange + ") (= (bitU (bvshl w (shamt k)) j) (and (>= j k) (bitU w (- j k))))) :pattern ((bitU (bvshl w (shamt k)) j))))",
+		Proof: func(k int) string {
+			return forallJ(func(j int) string {
+				if j >= k {
+					return boolEq(bitD(fmt.Sprintf("(bvshl w #x%016x)", k), j), bitD("w", j-k))
+				}
+				return "(not " + bitD(fmt.Sprintf("(bvshl w #x%016x)", k), j) + ")"
+			})
+		}},
+	{Name: "bit-of-lshr", PerK: true,
+		Axiom: "(forall ((w (_ BitVec 64)) (k Int) (j Int)) (! (=> (and " + kRange + " " + jRange + ") (= (bitU (bvlshr w (shamt k)) j) (and (< (+ j k) 64) (bitU w (+ j k))))) :pattern ((bitU (bvlshr w (shamt k)) j))))",
+		Proof: func(k int) string {
+			return forallJ(func(j int) string {
+				if j+k < 64 {
+					return boolEq(bitD(fmt.Sprintf("(bvlshr w #x%016x)", k), j), bitD("w", j+k))
+				}
+				return "(not " + bitD(fmt.Sprintf("(bvlshr w #x%016x)", k), j) + ")"
+			})
+		}},
+	{Name: "bit-of-low-mask", PerK: true,
+		Axiom: "(forall ((k Int) (j Int)) (! (=> (and " + kRange + " " + jRange + ") (= (bitU (bvsub " + shl1("k") + " " + one + ") j) (< j k))) :pattern ((bitU (bvsub " + shl1("k") + " " + one + ") j))))",
+		Proof: func(k int) string {
+			return forallJ(func(j int) string {
+				return boolEq(bitD("(bvsub "+kc(k)+" "+one+")", j), fmt.Sprintf("%v", j < k))
+			})
+		}},
+	{Name: "tz-in-bits", Assumed: "definition of math/bits.TrailingZeros64: index of the lowest set bit, 64 for zero",
+		Axiom: "(forall ((w (_ BitVec 64))) (! (and (<= 0 (bvtz w)) (<= (bvtz w) 64) (= (= (bvtz w) 64) (= w " + zero + ")) (=> (not (= w " + zero + ")) (and (bitU w (bvtz w)) (forall ((j Int)) (! (=> (and (<= 0 j) (< j (bvtz w))) (not (bitU w j))) :pattern ((bitU w j))))))) :pattern ((bvtz w))))",
+		Proof: func(k int) string {
+			// for every w whose lowest set bit is k (definition of tz = k): bit k set and all lower bits clear - tautological over the definition; checked: lowest-set-bit characterisation is consistent
+			low := forallJ(func(j int) string {
+				if j < k {
+					return "(not " + bitD("w", j) + ")"
+				}
+				return "true"
+			})
+			return "(=> (and " + bitD("w", k) + " " + low + ") (and (not (= w " + zero + ")) (= (bvand w (bvsub " + kc(k) + " " + one + ")) " + zero + ")))"
+		}},
+	{Name: "lz-in-bits", Assumed: "definition of math/bits.LeadingZeros64: 63 - index of the highest set bit, 64 for zero",
+		Axiom: "(forall ((w (_ BitVec 64))) (! (and (<= 0 (bvlz w)) (<= (bvlz w) 64) (= (= (bvlz w) 64) (= w " + zero + ")) (=> (not (= w " + zero + ")) (and (bitU w (- 63 (bvlz w))) (forall ((j Int)) (! (=> (and (< (- 63 (bvlz w)) j) (< j 64)) (not (bitU w j))) :pattern ((bitU w j))))))) :pattern ((bvlz w))))",
+		Proof: func(k int) string {
+			hi := forallJ(func(j int) string {
+				if j > k {
+					return "(not " + bitD("w", j) + ")"
+				}
+				return "true"
+			})
+			return "(=> (and " + bitD("w", k) + " " + hi + ") (and (not (= w " + zero + ")) (= (bvlshr w #x" + fmt.Sprintf("%016x", k+1) + ") " + zero + ")))"
+		}},
+	{Name: "wcnt-basics", Assumed: "definition of the spec function wcnt(w,k) = number of one bits of w below position k (k <= 0: 0; k >= 64: popcnt)",
+		Axiom: "(forall ((w (_ BitVec 64)) (k Int)) (! (and (=> (<= k 0) (= (wcnt w k) 0)) (=> (and (<= 0 k) (<= k 64)) (and (<= 0 (wcnt w k)) (<= (wcnt w k) k))) (=> (>= k 64) (= (wcnt w k) (popcnt w)))) :pattern ((wcnt w k))))",
+		Proof: func(k int) string { return "true" }},
+	{Name: "wcnt-step", PerK: true,
+		Axiom: "(forall ((w (_ BitVec 64)) (k Int)) (! (=> " + kRange + " (= (wcnt w (+ k 1)) (+ (wcnt w k) (ite (bitU w k) 1 0)))) :pattern ((wcnt w (+ k 1))) :pattern ((wcnt w k) (bitU w k))))",
+		Proof: func(k int) string {
+			return "(= " + wcntD("w", k+1) + " (+ " + wcntD("w", k) + " (ite " + bitD("w", k) + " 1 0)))"
+		}},
+	{Name: "wcnt-popcnt-shl", PerK: true,
+		Axiom: "(forall ((w (_ BitVec 64)) (k Int)) (! (=> (and (< 0 k) (< k 64)) (= (popcnt (bvshl w (shamt (- 64 k)))) (wcnt w k))) :pattern ((popcnt (bvshl w (shamt (- 64 k)))))))",
+		Proof: func(k int) string {
+			if k == 0 {
+				return "true"
+			}
+			return "(= " + popD(fmt.Sprintf("(bvshl w #x%016x)", 64-k)) + " " + wcntD("w", k) + ")"
+		}},
+	{Name: "wcnt-popcnt-high-mask", PerK: true,
+		Axiom: "(forall ((w (_ BitVec 64)) (k Int)) (! (=> " + kRange + " (= (popcnt (bvand w (bvshl " + ones + " (shamt k)))) (- (popcnt w) (wcnt w k)))) :pattern ((popcnt (bvand w (bvshl " + ones + " (shamt k)))))))",
+		Proof: func(k int) string {
+			return "(= " + popD(fmt.Sprintf("(bvand w (bvshl %s #x%016x))", ones, k)) + " (- " + popD("w") + " " + wcntD("w", k) + "))"
+		}},
+	{Name: "wcnt-popcnt-low-mask", PerK: true,
+		Axiom: "(forall ((w (_ BitVec 64)) (k Int)) (! (=> " + kRange + " (= (popcnt (bvand w (bvlshr " + ones + " (shamt k)))) (wcnt w (- 64 k)))) :pattern ((popcnt (bvand w (bvlshr " + ones + " (shamt k)))))))",
+		Proof: func(k int) string {
+			return "(= " + popD(fmt.Sprintf("(bvand w (bvlshr %s #x%016x))", ones, k)) + " " + wcntD("w", 64-k) + ")"
+		}},
 	{Name: "iadd-increment-idiom", PerK: true,
 		Axiom: "(forall ((w (_ BitVec 64)) (k Int)) (! (=> " + kRange + " (= (bv2nat (bvlshr (bvxor w (bvor w " + shl1("k") + ")) (shamt k))) (ite (bitU w k) 0 1))) :pattern ((bvlshr (bvxor w (bvor w " + shl1("k") + ")) (shamt k)))))",
 		Proof: func(k int) string {
@@ -178,10 +270,16 @@ func (e *Exec) needBitLib() {
 	e.needShamt()
 	e.rawDecl("fun:bitU", "(declare-fun bitU ((_ BitVec 64) Int) Bool)")
 	e.rawDecl("fun:wordeq", "(declare-fun wordeq ((_ BitVec 64) (_ BitVec 64)) Bool)")
+	e.rawDecl("fun:wcnt", "(declare-fun wcnt ((_ BitVec 64) Int) Int)")
 	for _, l := range bitLemmas {
 		e.globalAxiom("(assert " + l.Axiom + ")")
 	}
-	e.note("lemma-library", fmt.Sprintf("bit/popcount lemma library (%d facts; each re-proved per bit index against the definitions by `rvc lemmas`)", len(bitLemmas)))
+	for _, l := range bitLemmas {
+		if l.Assumed != "" {
+			e.note("axiom", l.Name+": "+l.Assumed)
+		}
+	}
+	e.note("lemma-library", fmt.Sprintf("bit/popcount lemma library (%d facts; each re-proved per bit index against the definitions by `rvc lemmas`, except the definitional ones listed as axioms)", len(bitLemmas)))
 }
 
 // cmdLemmas re-proves the library.
@@ -193,6 +291,10 @@ func cmdLemmas(args []string) int {
 	}
 	var jobs []job
 	for _, l := range bitLemmas {
+		if l.Assumed != "" {
+			fmt.Printf("assumed (not proved): %s: %s\n", l.Name, l.Assumed)
+			continue
+		}
 		ks := []int{0}
 		if l.PerK {
 			ks = nil
